@@ -189,6 +189,9 @@ def run_proofs(ctx):
     from vf.proofs.terms import run_terms
 
     run_terms(ctx, "C01")
+    from vf.proofs import c01_tokens
+
+    c01_tokens.run_proofs(ctx)      # the token-stream rewrite behind `0` -> `-1`
     from vf.proofs import c14_ast
 
     c14_ast.run_proofs(ctx)
